@@ -235,7 +235,7 @@ pub fn check(ctx: &mut Ctx) {
     ];
     let open = ctx.is_open("C20-empty-pattern-excludes-websocket");
     ctx.probe("C20-empty-pattern-excludes-websocket", serde_json::json!({"rules": ["@@"], "url": "ws://ad.com/"}), probe_ws());
-    let n = ctx.tier.pick(60_000, 3_000_000);
+    let n = ctx.tier.pick(60_000, 1_500_000);
     drive(ctx, "export", n, 500, &decode, &move |c: &CbCase, o: &mut Obs| check_case_with(c, o, open));
 }
 
